@@ -18,6 +18,10 @@ def check(run, views, tier):
         n = rr.r_readexact(run, F)
         run.floor("R-READEXACT", n, 8 if rr.async_on(F) else 4, "calls on the readers' source")
         rr.r_stop_onlyexit(run, F)
+        # "delivered unmodified as the document payload": the payload adaptor forwards reads unchanged (C08's R-FORWARD)
+        from ..engine import include
+        from . import c08
+        include(run, c08, {cfg: crates}, tier, "R-FORWARD|")
         # the clients hand the whole response stream to the parser (the clause of R-HTTPSHAPE that concerns the payload)
         from ..engine import Only
         from . import c11
